@@ -1,1 +1,202 @@
+//! Independent writers/readers for the small required tables, and a minimal loadable font.
 
+use super::{be16, be32, bei16, Font, W};
+
+#[derive(Clone, Debug)]
+pub struct Head {
+    pub units_per_em: u16,
+    pub x_min: i16,
+    pub y_min: i16,
+    pub x_max: i16,
+    pub y_max: i16,
+    pub index_to_loc_format: i16,
+    pub flags: u16,
+    pub mac_style: u16,
+}
+impl Default for Head {
+    fn default() -> Head {
+        Head { units_per_em: 1000, x_min: 0, y_min: 0, x_max: 0, y_max: 0, index_to_loc_format: 0, flags: 3, mac_style: 0 }
+    }
+}
+impl Head {
+    pub fn write(&self) -> Vec<u8> {
+        let mut w = W::new();
+        w.u16(1).u16(0).u32(0x0001_0000).u32(0).u32(0x5F0F_3CF5).u16(self.flags).u16(self.units_per_em);
+        w.i64(3_600_000_000).i64(3_600_000_000);
+        w.i16(self.x_min).i16(self.y_min).i16(self.x_max).i16(self.y_max);
+        w.u16(self.mac_style).u16(8).i16(2).i16(self.index_to_loc_format).i16(0);
+        w.b
+    }
+    pub fn read(d: &[u8]) -> Option<Head> {
+        Some(Head {
+            flags: be16(d, 16)?,
+            units_per_em: be16(d, 18)?,
+            x_min: bei16(d, 36)?,
+            y_min: bei16(d, 38)?,
+            x_max: bei16(d, 40)?,
+            y_max: bei16(d, 42)?,
+            mac_style: be16(d, 44)?,
+            index_to_loc_format: bei16(d, 50)?,
+        })
+    }
+}
+
+#[derive(Clone, Debug, Default)]
+pub struct Hhea {
+    pub ascender: i16,
+    pub descender: i16,
+    pub line_gap: i16,
+    pub advance_width_max: u16,
+    pub min_lsb: i16,
+    pub min_rsb: i16,
+    pub x_max_extent: i16,
+    pub caret_slope_rise: i16,
+    pub caret_slope_run: i16,
+    pub caret_offset: i16,
+    pub num_h_metrics: u16,
+}
+impl Hhea {
+    pub fn write(&self) -> Vec<u8> {
+        let mut w = W::new();
+        w.u16(1).u16(0).i16(self.ascender).i16(self.descender).i16(self.line_gap).u16(self.advance_width_max);
+        w.i16(self.min_lsb).i16(self.min_rsb).i16(self.x_max_extent).i16(self.caret_slope_rise).i16(self.caret_slope_run);
+        w.i16(self.caret_offset).i16(0).i16(0).i16(0).i16(0).i16(0).u16(self.num_h_metrics);
+        w.b
+    }
+    pub fn read(d: &[u8]) -> Option<Hhea> {
+        Some(Hhea {
+            ascender: bei16(d, 4)?,
+            descender: bei16(d, 6)?,
+            line_gap: bei16(d, 8)?,
+            advance_width_max: be16(d, 10)?,
+            min_lsb: bei16(d, 12)?,
+            min_rsb: bei16(d, 14)?,
+            x_max_extent: bei16(d, 16)?,
+            caret_slope_rise: bei16(d, 18)?,
+            caret_slope_run: bei16(d, 20)?,
+            caret_offset: bei16(d, 22)?,
+            num_h_metrics: be16(d, 34)?,
+        })
+    }
+}
+
+pub fn write_maxp(num_glyphs: u16, truetype: bool) -> Vec<u8> {
+    let mut w = W::new();
+    if truetype {
+        w.u32(0x0001_0000).u16(num_glyphs);
+        // maxPoints .. maxComponentDepth (13 fields)
+        for v in [64u16, 8, 64, 8, 2, 0, 0, 0, 0, 0, 0, 4, 4] {
+            w.u16(v);
+        }
+    } else {
+        w.u32(0x0000_5000).u16(num_glyphs);
+    }
+    w.b
+}
+pub fn maxp_num_glyphs(d: &[u8]) -> Option<u16> {
+    be16(d, 4)
+}
+
+/// hmtx from per-glyph (advance, lsb) with `num_h_metrics` long records (the rest share the last advance).
+pub fn write_hmtx(metrics: &[(u16, i16)], num_h_metrics: usize) -> Vec<u8> {
+    let mut w = W::new();
+    for (i, &(adv, lsb)) in metrics.iter().enumerate() {
+        if i < num_h_metrics {
+            w.u16(adv).i16(lsb);
+        } else {
+            w.i16(lsb);
+        }
+    }
+    w.b
+}
+
+/// Independent hmtx reader: (advance, lsb) for every glyph, None if the table is too short.
+pub fn read_hmtx(d: &[u8], num_glyphs: usize, num_h_metrics: usize) -> Option<Vec<(u16, i16)>> {
+    if num_h_metrics == 0 && num_glyphs > 0 {
+        return None;
+    }
+    let mut out = Vec::with_capacity(num_glyphs);
+    let mut last_adv = 0u16;
+    for g in 0..num_glyphs {
+        if g < num_h_metrics {
+            last_adv = be16(d, 4 * g)?;
+            out.push((last_adv, bei16(d, 4 * g + 2)?));
+        } else {
+            out.push((last_adv, bei16(d, 4 * num_h_metrics + 2 * (g - num_h_metrics))?));
+        }
+    }
+    Some(out)
+}
+
+pub fn write_os2(version: u16, first_char: u16, last_char: u16) -> Vec<u8> {
+    let mut w = W::new();
+    w.u16(version).i16(500).u16(400).u16(5).u16(0);
+    for _ in 0..10 {
+        w.i16(0);
+    }
+    w.i16(0); // sFamilyClass
+    w.bytes(&[0; 10]); // panose
+    w.u32(0).u32(0).u32(0).u32(0);
+    w.bytes(b"VRIF");
+    w.u16(0x40).u16(first_char).u16(last_char);
+    if version >= 0 {
+        w.i16(800).i16(-200).i16(90).u16(1000).u16(200);
+    }
+    if version >= 1 {
+        w.u32(1).u32(0);
+    }
+    if version >= 2 {
+        w.i16(500).i16(700).u16(0).u16(32).u16(1);
+    }
+    if version >= 5 {
+        w.u16(0).u16(0xFFFF);
+    }
+    w.b
+}
+
+pub fn write_post3() -> Vec<u8> {
+    let mut w = W::new();
+    w.u32(0x0003_0000).u32(0).i16(-100).i16(50).u32(0).u32(0).u32(0).u32(0).u32(0);
+    w.b
+}
+
+pub fn write_name(entries: &[(u16, &str)]) -> Vec<u8> {
+    let mut w = W::new();
+    let mut storage = Vec::new();
+    w.u16(0).u16(entries.len() as u16).u16((6 + 12 * entries.len()) as u16);
+    for (id, s) in entries {
+        let enc: Vec<u8> = s.encode_utf16().flat_map(|u| u.to_be_bytes()).collect();
+        w.u16(3).u16(1).u16(0x409).u16(*id).u16(enc.len() as u16).u16(storage.len() as u16);
+        storage.extend_from_slice(&enc);
+    }
+    w.bytes(&storage);
+    w.b
+}
+
+/// A minimal TrueType font that `Font::new` accepts: `num_glyphs` empty glyphs, given cmap.
+pub fn minimal_font(cmap: Vec<u8>, num_glyphs: u16, os2_first_char: Option<u16>) -> Font {
+    let mut f = Font::new(0x0001_0000);
+    f.sets("cmap", cmap);
+    f.sets("head", Head::default().write());
+    let hhea = Hhea { ascender: 800, descender: -200, advance_width_max: 600, num_h_metrics: 1, caret_slope_rise: 1, ..Default::default() };
+    f.sets("hhea", hhea.write());
+    f.sets("maxp", write_maxp(num_glyphs, true));
+    let metrics: Vec<(u16, i16)> = (0..num_glyphs.max(1)).map(|_| (600u16, 0i16)).collect();
+    f.sets("hmtx", write_hmtx(&metrics, 1));
+    let mut loca = W::new();
+    for _ in 0..=num_glyphs {
+        loca.u16(0);
+    }
+    f.sets("loca", loca.b);
+    f.sets("glyf", Vec::new());
+    f.sets("post", write_post3());
+    f.sets("name", write_name(&[(1, "Verif"), (2, "Regular"), (4, "Verif Regular"), (6, "Verif-Regular")]));
+    if let Some(fc) = os2_first_char {
+        f.sets("OS/2", write_os2(4, fc, 0xFFFF));
+    }
+    f
+}
+
+pub fn read_u32_at(d: &[u8], o: usize) -> Option<u32> {
+    be32(d, o)
+}
